@@ -10,12 +10,12 @@ cd $wt || exit 9
 git checkout -q -- . 
 demo=$(ls $sd/*_test.go 2>/dev/null | head -1)
 [ -n "$demo" ] || { echo "no demo test file"; exit 9; }
-sed "/^\/\/go:build/d" "$demo" > $pkg/zz_seed_demo_test.go
+mkdir -p $pkg; sed "/^\/\/go:build/d" "$demo" > $pkg/zz_seed_demo_test.go
 unshare -n sh -c "ip link set lo up; go1.26.8 test ${SEED_TEST_FLAGS:-} -vet=off -count=1 -timeout 300s -run '$re' ./$pkg/" > /tmp/confirm_orig.out 2>&1; r_orig=$?
-git apply $sd/patch.diff || { echo "patch does not apply"; rm -f $pkg/zz_seed_demo_test.go; exit 9; }
+git apply $sd/patch.diff || { echo "patch does not apply"; rm -f $pkg/zz_seed_demo_test.go; rmdir $pkg 2>/dev/null; exit 9; }
 go1.26.8 build ./... > /tmp/confirm_build.out 2>&1; r_build=$?
 unshare -n sh -c "ip link set lo up; go1.26.8 test ${SEED_TEST_FLAGS:-} -vet=off -count=1 -timeout 300s -run '$re' ./$pkg/" > /tmp/confirm_seed.out 2>&1; r_seed=$?
-rm -f $pkg/zz_seed_demo_test.go
+rm -f $pkg/zz_seed_demo_test.go; rmdir $pkg 2>/dev/null
 touched=$(git diff --name-only | xargs -n1 dirname | sort -u | sed 's|^|./|' | tr '\n' ' ')
 unshare -n sh -c "ip link set lo up; go1.26.8 test -vet=off -count=1 -timeout 900s $touched $extra" > /tmp/confirm_suite.out 2>&1; r_suite=$?
 git checkout -q -- .
